@@ -21,7 +21,7 @@ def copy_depth(e: ast.expr) -> Tuple[int, Optional[ast.expr]]:
     """
     if isinstance(e, ast.Call):
         f = norm(e.func)
-        if f in ("deepcopy", "copy.deepcopy") and len(e.args) == 1:
+        if f in ("deepcopy", "copy.deepcopy") and len(e.args) in (1, 2):
             return INF, e.args[0]
         if f in ("list", "dict", "set", "sorted", "tuple", "copy.copy", "copy") and len(e.args) == 1:
             d, s = copy_depth(e.args[0])
